@@ -12,7 +12,7 @@ LEVEL = "exploration"
 DESIGN_REF = "DESIGN.md section 4 / C02"
 CHUNK = 16
 RULE = ("(a) the complete C01 letter space for n<=2 (exact gradient), the n=2 letter space "
-        "under each finite-difference mode and translated so that a bound is exactly 0.0 or with the box written as a list of (min,max) pairs with +-inf / None, and 12 non-convex objectives x box {box, mixed} "
+        "under each finite-difference mode and translated so that a bound is exactly 0.0 or with the box written as a list of (min,max) pairs with +-inf / None, with a second solve on a larger box running inside the callback, with an objective refusing complex arguments under cs, and 12 non-convex objectives x box {box, mixed} "
         "x start {face, vertex} x jac {callable,None,2-point,3-point,cs} x maxls {1,3,20} x "
         "maxfun {5,50,3000} x user letter {pure, scribble, samebuf}; (b) all environment "
         "runs with <= D deviations among the first K distinct points; (c) a linear objective "
@@ -24,6 +24,7 @@ RULE = ("(a) the complete C01 letter space for n<=2 (exact gradient), the n=2 le
 ASSUMPTIONS = [
     "complex-step stencil points are judged on their real part",
     "an exception escaping the solver is counted, not judged here (C16/C20)",
+    "objectives returning inf/nan at points of the box are part of the alphabet (barrier family)",
 ]
 JACS = ("callable", None, "2-point", "3-point", "cs")
 AWK = [0.1, 0.3, 0.7, 1.1, 1.3, 1.7, 2.3, 0.37, 1e-3, 123.456]
@@ -56,6 +57,15 @@ def cases(tier, variants):
         for jac in ("callable", "2-point"):
             yield from F.convex_cases(2, variants, (3,), fams=("qp",), hesses=("rot2",),
                                       extra=dict(part="e1", jac=jac, brep=rep))
+    # history letter: a second optimisation, on a ten times larger box, runs inside the
+    # callback of the first one (two solves alive at the same time, different boxes)
+    for jac in JACS:
+        yield from F.convex_cases(2, variants, (3,), fams=("qp",), hesses=("rot2",),
+                                  extra=dict(part="e1", jac=jac, nest=1))
+    # user letter: an objective that refuses complex arguments (TypeError, as numpy ufuncs
+    # without a complex loop do) under jac='cs'
+    yield from F.convex_cases(2, variants, (3,), fams=("qp", "soft"), hesses=("rot2",),
+                              extra=dict(part="e1", jac="cs", nocomplex=1))
     if tier == "thorough":
         yield from F.convex_cases(3, variants[:1], (2,), hesses=("rot2",),
                                   extra=dict(part="e1", jac="callable"))
@@ -73,6 +83,15 @@ def cases(tier, variants):
                                         yield dict(part="e1", kind="nonconvex", fam=fam, n=n,
                                                    box=box, start=start, var=v, jac=jac,
                                                    maxls=mls, maxfun=mf, user=u, maxcor=3)
+    # objective letter: +inf on part of the box (a guard inside the user's code)
+    for v in variants:
+        for n in (1, 2, 3):
+            for start in ("in", "face", "vertex"):
+                for jac in ("callable", "2-point"):
+                    for mls in (3, 20):
+                        yield dict(part="e1", kind="nonconvex", fam="barrier", n=n, box="box",
+                                   start=start, var=v, jac=jac, maxls=mls, maxfun=3000,
+                                   user="pure", maxcor=3)
     if tier == "quick":
         yield from E.env_cases(6, 2, variants)
     else:
@@ -144,30 +163,58 @@ def run(case):
         return dict(viol=viol, outcome=str(res.message), nontrivial=core.case_hash(case))
     p = F.problem_of(case)
     jac = case.get("jac", "callable")
-    if jac == "cs":
+    if jac == "cs" and not case.get("nocomplex"):
         try:
             p.f(p.x0 + 1e-20j)
         except Exception:
             return dict(viol=[], outcome="cs_unsupported_objective", stats={"skipped": 1})
+    if case.get("nocomplex"):
+        f_in = p.f
+
+        def f_real_only(x):
+            if np.iscomplexobj(x):
+                raise TypeError("ufunc 'logaddexp' not supported for the input types")
+            return f_in(x)
+        p.f = f_real_only
     obs = F.Obs(p.f, p.g, p.lb, p.ub, user=case.get("user", "pure"))
     its = []
+    inner = None
+    if case.get("nest"):
+        # the inner problem: same objective, box enlarged by 10 on every finite side
+        lb2, ub2 = p.lb - 10.0, p.ub + 10.0
+        inner = F.Obs(p.f, p.g, lb2, ub2)
+        inner_done = []
+
+        def run_inner():
+            if inner_done:
+                return
+            inner_done.append(1)
+            minimize_lbfgsb(x0=np.clip(p.x0 + 3.0, lb2, ub2), fun=inner.fun,
+                            jac=inner.jac if jac == "callable" else jac,
+                            bounds=np.array([lb2, ub2]).T, maxcor=3, maxiter=4)
     res = None
     exc = None
     kw = dict(maxcor=case.get("maxcor", 3), maxls=case.get("maxls", 20),
               maxfun=case.get("maxfun", 3000), maxiter=60, ftol=1e-14, gtol=1e-9)
     x0_ = p.x0.astype(np.float32) if case.get("x0dtype") == "f4" else p.x0.copy()
+    def cb(x, st):
+        its.append((x.copy(), np.copy(st.x)))
+        if inner is not None:
+            run_inner()
+        return False
     try:
         res = minimize_lbfgsb(x0=x0_, fun=obs.fun,
                               jac=obs.jac if jac == "callable" else jac, bounds=p.bounds,
-                              callback=lambda x, st: its.append((x.copy(), np.copy(st.x))) and False,
-                              **kw)
+                              callback=cb, **kw)
     except core.CaseTimeout:
         raise
     except Exception as e:
         exc = type(e).__name__
-    if obs.nonfinite:
-        return dict(viol=[], outcome="objective_returned_nonfinite", stats={"nonfinite": 1})
+    # (an objective returning inf/nan at a point of the box does not entitle the solver to
+    # leave the box: the points are judged all the same)
     viol = judge(obs, its, res, p.lb, p.ub)
+    if inner is not None and inner.outside:
+        viol.append(V("inner_run_evaluated_outside_its_box", x=inner.outside[0][2]))
     touched = any(np.any((q <= p.lb) | (q >= p.ub)) for q in obs.pts)
     return dict(viol=viol, outcome=("exception:" + exc) if exc else str(res.message),
                 nontrivial=core.case_hash(case) if touched else None,
